@@ -87,6 +87,7 @@ def gen(d, tier):
                 done += 1
         elif k == "step":
             acts.append(["step", d.choice(("EL", "ER", "S"))])
+            world.note_step(acts[-1][1])        # (STALE_PATHSTYLE needs to know which event loop ran)
         elif k == "settle":
             acts.append(["settle"])
             world.settle()
